@@ -46,7 +46,7 @@ type tok struct {
 	uses     int
 }
 
-var lifetimes = map[string]time.Duration{"negative": -time.Hour, "1ns": 1, "30s": 30 * time.Second, "default": nodeenrollment.DefaultMaximumServerLedActivationTokenLifetime, "years": 5 * 365 * 24 * time.Hour}
+var lifetimes = map[string]time.Duration{"negative": -time.Hour, "zero": 0, "1ns": 1, "30s": 30 * time.Second, "default": nodeenrollment.DefaultMaximumServerLedActivationTokenLifetime, "years": 5 * 365 * 24 * time.Hour}
 
 func TestProp_Tokens(t *testing.T) {
 	rec := vkit.Rec(prop)
@@ -131,7 +131,7 @@ func TestProp_Tokens(t *testing.T) {
 				if x == nil {
 					t.Skip()
 				}
-				lname := rapid.SampledFrom([]string{"negative", "1ns", "30s", "default", "default", "years"}).Draw(t, "lifetime")
+				lname := rapid.SampledFrom([]string{"negative", "zero", "1ns", "30s", "default", "default", "years"}).Draw(t, "lifetime")
 				life := lifetimes[lname]
 				now := time.Now()
 				margin := x.created.Add(life).Sub(now)
